@@ -188,9 +188,10 @@ fn rvalue<'tcx>(cx: &Ctx<'tcx>, owner: LocalDefId, body: &Body<'tcx>, rv: &Rvalu
     }
 }
 
-pub fn dump_body<'tcx>(cx: &Ctx<'tcx>, owner: LocalDefId, body: &Body<'tcx>) -> (J, Vec<J>) {
+pub fn dump_body<'tcx>(cx: &Ctx<'tcx>, owner: LocalDefId, body: &Body<'tcx>) -> (J, Vec<J>, Vec<J>) {
     let owner_path = cx.path(owner.to_def_id());
     let mut calls = vec![];
+    let mut casts = vec![];
     // locals
     let mut names: Vec<Option<String>> = vec![None; body.local_decls.len()];
     for vdi in body.var_debug_info.iter() {
@@ -223,6 +224,20 @@ pub fn dump_body<'tcx>(cx: &Ctx<'tcx>, owner: LocalDefId, body: &Body<'tcx>) -> 
             match &st.kind {
                 StatementKind::Assign(b) => {
                     let (p, rv) = &**b;
+                    if let Rvalue::Cast(kind, o, t) = rv {
+                        let from = o.ty(body, cx.tcx);
+                        // pointer coercions (unsizing, reborrow) are not interesting
+                        if !matches!(kind, CastKind::PointerCoercion(..)) {
+                            casts.push(J::Obj(vec![
+                                ("fn", J::s(owner_path.clone())),
+                                ("ck", J::s(format!("{:?}", kind))),
+                                ("from", J::s(cx.ty_str(from))),
+                                ("to", J::s(cx.ty_str(*t))),
+                                ("loc", cx.loc(st.source_info.span)),
+                                ("expn", cx.expn(st.source_info.span)),
+                            ]));
+                        }
+                    }
                     stmts.push(J::Obj(vec![
                         ("d", place(cx, body, p)),
                         ("rv", rvalue(cx, owner, body, rv)),
@@ -364,7 +379,7 @@ pub fn dump_body<'tcx>(cx: &Ctx<'tcx>, owner: LocalDefId, body: &Body<'tcx>) -> 
         ("upvars", if upvars.is_empty() { J::Null } else { J::Arr(upvars) }),
         ("blocks", J::Arr(blocks)),
     ]);
-    (j, calls)
+    (j, calls, casts)
 }
 
 fn unwind_j(u: &UnwindAction) -> J {
